@@ -11,7 +11,8 @@ from vf.gen import frames
 
 SAFE_TEXT = st.one_of(
     st.sampled_from(["a", "b", "x", "1", "02", "0.7", ".7", "1e5", "True", "False", "nan", "None", "2020-01-01",
-                     "A", "é", "ü", "a b", "a-b", "a_b", "10", "1.0", "-3", "inf", "NaT", "é"]),
+                     "A", "é", "ü", "a b", "a-b", "a_b", "10", "1.0", "-3", "inf", "NaT", "é",
+                     "NAN", "Nan", "NAT", "nat", "TRUE", "none", "NULL"]),
     st.text(alphabet=string.ascii_letters + string.digits + "_-.", min_size=1, max_size=4).filter(
         lambda s: s not in (".", "..")),
 )
@@ -69,6 +70,8 @@ def partition_column(draw, name, kinds=("int", "float", "bool", "datetime", "tex
 
 
 PNAMES = ["p", "q", "r", "year", "part", "k1", "key"]
+# names that are not identifiers (a hive directory is "<name>=<value>": anything but '/' and '=' can be a name)
+PNAMES_ODD = ["my-col", "a b", "größe", "k.1", "p", "q"]
 
 
 @st.composite
@@ -78,7 +81,8 @@ def partitioned(draw, thorough=False, value_kinds=frames.ALL_KINDS, max_parts=3,
                            rows=[0, 1, 2, 3, 5, 8, 9, 12, 17, 30]))
     used = {c["name"] for c in fr["cols"]}
     nparts = draw(st.integers(1, max_parts))
-    pnames = [n for n in PNAMES if n not in used][:nparts]
+    pool = PNAMES_ODD if draw(st.integers(0, 5)) == 0 else PNAMES
+    pnames = [n for n in pool if n not in used][:nparts]
     pcols = [draw(partition_column(n, **({"kinds": pkinds} if pkinds else {}), nulls=pnulls)) for n in pnames]
     # interleave partition columns among the value columns
     cols = list(fr["cols"])
